@@ -256,7 +256,8 @@ total, `p = c / Σc`, marginals `p_x = p.sum(0)`, `p_y = p.sum(1)`, `p_{x+y}`, `
 * sum average `Σ_k k p_{x+y}(k) = Σ_{i,j} (i + j) p(i,j) = μ_y + μ_x`;
 * inverse difference moment `Σ p(i,j)/(1 + (i−j)²) ∈ [0, 1]`;
 * the variances `Σ k² p_x(k) − μ_x²` (f4) and `Σ k² p_y(k) − μ_y²` are `≥ 0` and equal the centred textbook forms
-  `Σ_{i,j} (j − μ_x)² p(i,j)`, `Σ_{i,j} (i − μ_y)² p(i,j)`; sum variance `= Σ_{i,j} (i + j − f6)² p(i,j)`;
+  `Σ_{i,j} (j − μ_x)² p(i,j)`, `Σ_{i,j} (i − μ_y)² p(i,j)`; sum variance `= Σ_{i,j} (i + j − f6)² p(i,j)`, which also equals the
+  form `texture.py` evaluates, `np.dot(tk2, px_plus_y) − feats[5]**2` (the model uses the centred form: same real number);
 * covariance² `(Σ i j p(i,j) − μ_x μ_y)² ≤ var_x · var_y` (weighted Cauchy–Schwarz, no square roots), hence with any
   positive square roots `s_x² = var_x`, `s_y² = var_y` the correlation `cov/(s_x s_y)` lies in `[−1, 1]` (where a
   variance vanishes the textbook formula is 0/0 and the check does not compare f3);
@@ -298,6 +299,8 @@ theorem C19_haralick_features_def :
        vy = ∑ i ∈ Finset.range m, ∑ j ∈ Finset.range m, P i j * ((i : α) - uy) ^ 2) ∧
       sumVarG 0 Nat.cast m (pplusG 0 m P) f6 =
         ∑ i ∈ Finset.range m, ∑ j ∈ Finset.range m, ((i : α) + (j : α) - f6) ^ 2 * P i j ∧
+      sumVarG 0 Nat.cast m (pplusG 0 m P) f6 =
+        gsum 0 ((List.range (2 * m)).map fun k => ((k * k : ℕ) : α) * (pplusG 0 m P).getD k 0) - f6 * f6 ∧
       cov ^ 2 ≤ vx * vy ∧
       (∀ sx sy : α, sx ^ 2 = vx → sy ^ 2 = vy → 0 < sx → 0 < sy →
         -1 ≤ cov / (sx * sy) ∧ cov / (sx * sy) ≤ 1) ∧
@@ -308,7 +311,7 @@ theorem C19_haralick_features_def :
   have h0 : ∀ i j, 0 ≤ P i j := fun i j => matAt_nonneg m c i j
   have h1 : ∑ i ∈ Finset.range m, ∑ j ∈ Finset.range m, P i j = 1 := matAt_total m c hlen hT
   exact ⟨contrast_eq m P, sumAvg_eq m P, sumAvg_eq_means m P, idm_bounds m P h0 h1, var_nonneg m P h0 h1,
-    var_centered m P h1, sumVar_eq m P f6, cov_sq_le m P h0 h1,
+    var_centered m P h1, sumVar_eq m P f6, sumVar_code_form m P h1, cov_sq_le m P h0 h1,
     fun sx sy hx hy px' py' => corr_bounds cov vx vy sx sy (cov_sq_le m P h0 h1) hx hy px' py',
     sumVar_nonneg m P h0 f6, diffVar_nonneg m _⟩
 
